@@ -412,9 +412,13 @@ func sysRunGB(c sysCase, keep func(frame int, snap []sysSection)) (tr sysTrace) 
 	tr.Final = sysDigest(sysSnapshot(sysPartsOfGB(g.G)))
 	s := g.finish()
 	tr.Samples, tr.NSample = sysHashFloats(s), len(s)
-	sum := sha256.Sum256(g.Serial.Bytes())
-	tr.Serial = fmt.Sprintf("%d:%s", g.Serial.Len(), hex.EncodeToString(sum[:8]))
+	tr.Serial = sysSerialSig(g.Serial.Bytes())
 	return
+}
+
+func sysSerialSig(b []byte) string {
+	sum := sha256.Sum256(b)
+	return fmt.Sprintf("%d:%s", len(b), hex.EncodeToString(sum[:8]))
 }
 
 func sysTraceDiff(a, b sysTrace) string {
@@ -444,8 +448,9 @@ func sysTraceDiff(a, b sysTrace) string {
 // ---------------------------------------------------------------------------
 // child processes
 
-// sysChild runs a case in a fresh process of this test binary.
-func sysChild(c sysCase) (tr sysTrace, err error) {
+// sysSpawn runs TestXxx of this test binary in a fresh process, handing it
+// spec (JSON, path in the environment variable env) and reading out back.
+func sysSpawn(test, env string, spec, out interface{}) error {
 	dir := os.Getenv("VERIF_WORK")
 	if dir == "" {
 		dir = filepath.Join(vf.GetEnv().Root, ".work", "adhoc")
@@ -453,25 +458,35 @@ func sysChild(c sysCase) (tr sysTrace, err error) {
 	os.MkdirAll(dir, 0o755)
 	f, err := os.CreateTemp(dir, "child-*.json")
 	if err != nil {
-		return tr, err
+		return err
 	}
-	spec := f.Name()
-	defer os.Remove(spec)
-	defer os.Remove(spec + ".out")
-	b, _ := json.Marshal(c)
+	path := f.Name()
+	defer os.Remove(path)
+	defer os.Remove(path + ".out")
+	b, _ := json.Marshal(spec)
 	f.Write(b)
 	f.Close()
-	cmd := exec.Command(os.Args[0], "-test.run", "^TestSysChild$", "-test.timeout", "600s")
-	cmd.Env = append(os.Environ(), "VERIF_CHILD_SPEC="+spec, "VERIF_OUT=", "VERIF_SHARD=0/1")
-	out, rerr := cmd.CombinedOutput()
-	ob, oerr := os.ReadFile(spec + ".out")
+	cmd := exec.Command(os.Args[0], "-test.run", "^"+test+"$", "-test.timeout", "900s")
+	cmd.Env = append(os.Environ(), env+"="+path, "VERIF_OUT=", "VERIF_SHARD=0/1")
+	o, rerr := cmd.CombinedOutput()
+	ob, oerr := os.ReadFile(path + ".out")
 	if oerr != nil {
-		return tr, fmt.Errorf("child produced no result (exit: %v): %s", rerr, sysTail(string(out)))
+		return fmt.Errorf("child process produced no result (%v): %s", rerr, sysTail(string(o)))
 	}
-	if jerr := json.Unmarshal(ob, &tr); jerr != nil {
-		return tr, jerr
-	}
-	return tr, nil
+	return json.Unmarshal(ob, out)
+}
+
+// sysChildOut is how the child side of sysSpawn hands its result back.
+func sysChildOut(specPath string, v interface{}) {
+	ob, _ := json.Marshal(v)
+	os.WriteFile(specPath+".out.tmp", ob, 0o644)
+	os.Rename(specPath+".out.tmp", specPath+".out")
+}
+
+// sysChild runs a case in a fresh process of this test binary.
+func sysChild(c sysCase) (tr sysTrace, err error) {
+	err = sysSpawn("TestSysChild", "VERIF_CHILD_SPEC", c, &tr)
+	return
 }
 
 func sysTail(s string) string {
@@ -495,10 +510,7 @@ func TestSysChild(t *testing.T) {
 	if err := json.Unmarshal(b, &c); err != nil {
 		t.Fatal(err)
 	}
-	tr := sysRunGB(c, nil)
-	ob, _ := json.Marshal(tr)
-	os.WriteFile(spec+".out.tmp", ob, 0o644)
-	os.Rename(spec+".out.tmp", spec+".out")
+	sysChildOut(spec, sysRunGB(c, nil))
 }
 
 var _ = gl.Frames
